@@ -9,7 +9,7 @@ PROP = {
     "rule": "cases = histories of 30 (quick) / 60 (thorough) set_file_content steps over 4 file slots built from near-duplicates of 1-3 corpus files (same text, token edits, moved lines, wrapped in do/function, appended statements), half of them with mid-history config switches (language level, require-like functions); "
             "after every step the stored tree's full debug rendering + error list is compared with a fresh parse; distinct = hash of the step texts; non-trivial = >= 4 steps",
     "min_nontrivial": {"quick": 8000, "thorough": 200000},
-    "max_secs": {"quick": 600, "thorough": 900},
+    "max_secs": {"quick": 600, "thorough": 1500},
     "require_clauses": ["steps-compared", "history:with-config-switches", "history:same-config"],
     "assumptions": COMMON_ASSUME + ["cache hits are not observable from outside: sharing is made certain by construction of near-duplicate histories"],
     "level_text": "Real Vfs::set_file_content path (real Emmyrc::get_parse_config with the Vfs's NodeCache); ~100k (quick) step comparisons against fresh parses, including config switches mid-history.",
